@@ -688,3 +688,12 @@ def path_fields(steps):
 
 def path_calls(steps):
     return [s for s in steps if s[0] == "call"]
+
+
+def has_type(args, name):
+    """some generic argument is exactly the type `name` (last path segment, no generics)"""
+    for a in args or []:
+        base = a.split("<")[0]
+        if base == name or base.endswith("::" + name) or a == name or a.endswith("::" + name):
+            return True
+    return False
